@@ -201,7 +201,8 @@ func c09IndexQueries(idx index.Index, env *c09Env) error {
 
 func c09IsNoSeekEnd(err error, sd *c09Seed) bool {
 	// go-car's offsetReadSeeker does not know its end; on a CARv1 SkipNext and WrapV1 ask for it
-	return err != nil && strings.Contains(err.Error(), "unsupported whence")
+	_, perr := c09ORS(c09TinyV1(), nil).Seek(0, io.SeekEnd) // what this build answers
+	return err != nil && perr != nil && (errors.Is(err, perr) || strings.Contains(err.Error(), perr.Error()))
 }
 
 // c09SniffPad returns the data padding an archive that looks like a CARv2 was written with.
@@ -218,7 +219,7 @@ func c09ExtEntries() []c09Entry {
 	ctx := context.Background()
 	rootA := []cid.Cid{kit.B("a").Cid}
 	mkBR := func(mode int, modeName, kind string) c09Entry {
-		e := c09Entry{name: "BlockReader." + modeName + "/" + kind, buf: "both", inner: true, hdr: "ret", sect: "ret", run: func(in []byte, o drv.Opts, env *c09Env) error {
+		e := c09Entry{name: "BlockReader." + modeName + "/" + kind, buf: "both", inner: true, hdr: "ret", sect: "ret", sectNoBuf: c09NoBufOfMode(mode), run: func(in []byte, o drv.Opts, env *c09Env) error {
 			src, done := c09Src(kind, in, env)
 			defer done()
 			br, err := carv2.NewBlockReader(src, o.List()...)
@@ -262,7 +263,7 @@ func c09ExtEntries() []c09Entry {
 		}}
 	}
 	mkReader := func(kind string) c09Entry {
-		return c09Entry{name: "Reader/" + kind, buf: "both", inner: true, hdr: "ret", sect: "ret", run: func(in []byte, o drv.Opts, env *c09Env) error {
+		return c09Entry{name: "Reader/" + kind, buf: "both", inner: true, hdr: "ret", sect: "ret", sectNoBuf: "all", run: func(in []byte, o drv.Opts, env *c09Env) error {
 			rd, err := carv2.NewReader(c09SrcAt(kind, in, env), o.List()...)
 			if err != nil {
 				return err
